@@ -209,6 +209,13 @@ def Mask3.apply {R} [Add R] {a b c} (ninf : R) (m : Mask3 R) (x : Fin a → Fin 
     | some f0, some f1, some f2 => .ok (fun i j k => x i j k + v (f0 i) (f1 j) (f2 k))
     | _, _, _ => .error .broadcast
 
+/-- `if attn_mask is not None: …` -/
+def applyMask? {R} [Add R] {a b c} (ninf : R) (m : Option (Mask3 R)) (x : Fin a → Fin b → Fin c → R) :
+    Except Err (Fin a → Fin b → Fin c → R) :=
+  match m with
+  | none => .ok x
+  | some mm => mm.apply ninf x
+
 /-- `assert key_padding_mask.size(0) == bsz`, `.size(1) == src_len` -/
 def Kpm.check {R} (B S : Nat) : Kpm R → Except Err Unit
   | .none => .ok ()
@@ -285,8 +292,8 @@ structure Core (R : Type) (B h L S2 d : Nat) where
   attn : Fin (B * h) → Fin L → Fin d → R
 
 /-- lines 279–352 of `forward`: `q k v` are the projected (and, for `q`, scaled) tensors in
-sequence-first layout, `m` the checked 3-D mask -/
-def core {h d B L S nkv : Nat} (ops : Ops R) (vr : Variant) (nz : Nat)
+sequence-first layout, `m` the checked 3-D mask, `kf` the float-key-padding-mask variant -/
+def core {h d B L S nkv : Nat} (ops : Ops R) (kf : V) (nz : Nat)
     (q : Fin L → Fin B → Fin (h * d) → R) (k v : Fin S → Fin B → Fin (h * d) → R)
     (bk bv : Fin nkv → Fin (h * d) → R) (m : Option (Mask3 R)) (kp : Kpm R) :
     Except Err (Core R B h L (S + nkv + nz) d) := do
@@ -306,10 +313,8 @@ def core {h d B L S nkv : Nat} (ops : Ops R) (vr : Variant) (nz : Nat)
   let m2 := m1.map (Mask3.pad nz)
   let kp2 := kp1.pad nz
   let s0 := Buf.ofFn₃ (bmmQK qh.get₃ kh2.get₃)
-  let s1 ← match m2 with
-    | none => pure s0.get₃
-    | some mm => mm.apply ops.ninf s0.get₃
-  let s2 ← kp2.apply vr.kpmFloat ops.ninf s1
+  let s1 ← applyMask? ops.ninf m2 s0.get₃
+  let s2 ← kp2.apply kf ops.ninf s1
   let s2 := Buf.ofFn₃ s2
   let w := Buf.ofFn₃ (fun j l => ops.softmax _ (s2.get₃ j l))
   let attn := Buf.ofFn₃ (bmmWV w.get₃ vh2.get₃)
@@ -339,7 +344,7 @@ def forwardSF {h d Kd Vd nkv B L S : Nat} (ops : Ops R) (vr : Variant) (P : Para
   let k := Buf.ofFn₃ (lin3 P.k key)
   let v := Buf.ofFn₃ (lin3 P.v value)
   let m ← checkMask L S (B * h) am
-  let c ← core ops vr nz q.get₃ k.get₃ v.get₃ P.bk P.bv m kp
+  let c ← core ops vr.kpmFloat nz q.get₃ k.get₃ v.get₃ P.bk P.bv m kp
   let merged := Buf.ofFn₃ (mergeHeads c.attn)
   let out := Buf.ofFn₃ (lin3 P.o merged.get₃)
   let w := Buf.ofFn₃ (avgWeights ops c.w)
@@ -357,7 +362,7 @@ def forwardBF {h d Kd Vd nkv B L S : Nat} (ops : Ops R) (vr : Variant) (P : Para
   let m ← match vr.maskCheck with
     | .asCoded => checkMask B B (B * h) am
     | .repaired => checkMask L S (B * h) am
-  let c ← core ops vr nz q.get₃ k.get₃ v.get₃ P.bk P.bv m kp
+  let c ← core ops vr.kpmFloat nz q.get₃ k.get₃ v.get₃ P.bk P.bv m kp
   let merged := match vr.merge with
     | .asCoded => Buf.ofFn₃ (mergeHeadsBFCoded c.attn)
     | .repaired => Buf.ofFn₃ (transpose01 (mergeHeads c.attn))
